@@ -84,6 +84,7 @@ def run(F, R, ctx):
     nested_arm_rule(F, R)
     unordered_hash_rule(F, R)
     length_rule(F, R)
+    identity_field_rule(F, R)
     visited_rules(F, R)
     for v in sorted(hc):
         R.inst("C11.h", "hash arm %s is implemented" % v, hc[v][0] != "panic",
@@ -489,3 +490,60 @@ def length_rule(F, R):
                    "compare equal — (equal? (vector 1 (vector 1)) (vector (vector 1 1))) => #true" % (lv, rv),
                    fn.loc(fn.blocks[e].get("line")), sample=True)
     R.floor("C11.l", "container arms that flatten both sides", n, 5)
+
+
+def identity_field_rule(F, R):
+    R.rule("C11.i", "hashing and equality agree on what identifies a value (sibling agreement): when the Hash impl of a payload "
+                    "type feeds an identity field into the hasher (a field whose type is one of the repository's own types and "
+                    "holds no SteelVal — e.g. UserDefinedStruct.type_descriptor), the (kind, kind) arm of "
+                    "RecursiveEqualityHandler::visit compares that field with the field type's own equality (a call of "
+                    "<FieldType as PartialEq>::eq/ne in the arm or in a helper it calls) — comparing something derived from it "
+                    "(a name, a length) makes values equal? that hash differently, so an equal? key is not found")
+    sv = F.adts.get("steel::rvals::SteelVal")
+    if sv is None:
+        raise CheckError("anchor lost: steel::rvals::SteelVal")
+    fn, tup, top, pair_arm, header = _visit_tree(F)
+    default = pair_arm("Void", "IntV")
+    n = 0
+    for v in sv["variants"]:
+        arm = pair_arm(v["name"], v["name"])
+        if arm == default:
+            continue
+        for p in sorted(set(x for f in v["fields"] for x in f.get("mentions", []))):
+            if not p.startswith("steel::") or p not in F.adts:
+                continue
+            short = p.split("::")[-1]
+            hs = [x for x in F.fns if re.search(r"\{impl Hash for %s(<[^}]*>)?\}::hash$" % re.escape(short), x)]
+            if not hs:
+                continue
+            hashed = sorted(set(e[2] for _, e in lib.deep_events(F, F.fns[hs[0]], "fld", depth=1) if e[1] == short))
+            ftypes = {f["name"]: f for vv in F.adts[p]["variants"] for f in vv["fields"]}
+            for f in hashed:
+                fd = ftypes.get(f)
+                if fd is None:
+                    continue
+                ments = [m_ for m_ in fd.get("mentions", []) if m_.startswith("steel::") and m_ in F.adts]
+                if not ments or "SteelVal" in fd["ty"] or any("SteelVal" in str(F.adts[m_]) for m_ in ments):
+                    continue
+                tshort = fd["ty"].split("<")[0]
+                eqrx = re.compile(r"\{impl PartialEq(<[^>]*>)? for %s(<[^}]*>)?\}::(eq|ne)$" % re.escape(tshort))
+                if not any(eqrx.search(x) for x in F.fns):
+                    continue
+                n += 1
+                region = fn.reachable_from([arm], avoid=header)
+                found = False
+                for b in region:
+                    blk = fn.blocks[b]
+                    if blk["k"] != "call":
+                        continue
+                    if eqrx.search(blk["callee"]):
+                        found = True
+                    elif blk["callee"] in F.fns and blk["callee"].startswith("steel::"):
+                        if any(eqrx.search(cb["callee"]) for _, cb in lib.deep_calls(F, F.fns[blk["callee"]], depth=1)):
+                            found = True
+                R.inst("C11.i", "(%s, %s) arm compares %s.%s with <%s as PartialEq>" % (v["name"], v["name"], short, f, tshort), found,
+                       "<%s as Hash>::hash feeds %s.%s into the hasher, but the (%s, %s) arm of RecursiveEqualityHandler::visit "
+                       "never compares it with <%s as PartialEq>::eq: two values that differ only in that field are equal? and "
+                       "hash differently (an equal? key is not found in a hash map / set)" % (short, short, f, v["name"], v["name"], tshort),
+                       fn.loc(fn.blocks[arm].get("line")), sample={"hash_impl": lib.short_name(hs[0])})
+    R.floor("C11.i", "identity fields fed into a payload's Hash", n, 1)
